@@ -10,10 +10,9 @@ open SpsdkVerif
 /-! ### the lexical facts, unpacked -/
 
 structure WF (G : Guards) : Prop where
-  fnf : Exc.caughtBy G.l.caught .FileNotFoundError = true
-  tc : G.l.typeChecked = true
-  tcTry : G.l.typeCheckInTry = true
-  tcExc : Exc.caughtBy G.l.caught G.l.typeExc = true
+  ioL : ∀ e, ioExcs.contains e = true → Exc.caughtBy G.l.caught e = true
+  tcTry : G.l.typeChecked = true → G.l.typeCheckInTry = true
+  tcExc : G.l.typeChecked = true → Exc.caughtBy G.l.caught G.l.typeExc = true
   fpc : G.l.fpChecked = true
   stale : G.l.staleClearsLoaded = true
   hcl : G.l.handlerClearsLoaded = true
@@ -21,32 +20,40 @@ structure WF (G : Guards) : Prop where
   hrt : G.l.handlerRemoves = true → Exc.caughtBy G.l.handlerRemoveTolerates .FileNotFoundError = true
   lw : G.w.lockWrite = true
   ait : G.w.allInTry = true
-  mtc : G.w.mergesExisting = true → G.w.mergeTypeChecked = true
-  mte : G.w.mergesExisting = true → Exc.caughtBy G.w.caught G.w.mergeTypeExc = true
-  mfnf : G.w.mergesExisting = true → Exc.caughtBy G.w.caught .FileNotFoundError = true
+  ioW : ∀ e, ioExcs.contains e = true → Exc.caughtBy G.w.caught e = true
+  mte : G.w.mergesExisting = true → G.w.mergeTypeChecked = true → Exc.caughtBy G.w.caught G.w.mergeTypeExc = true
   mrs : G.w.mergesExisting = true → G.l.removeStale = true
+  mhr : G.w.mergesExisting = true → G.l.handlerRemoves = true
+
+theorem imp_of_not_or {a b : Bool} (h : (!a || b) = true) : a = true → b = true := by
+  cases a <;> simp_all
 
 theorem WF.of (G : Guards) (h : wfGuards G = true) : WF G := by
-  simp only [wfGuards, Bool.and_eq_true, Bool.or_eq_true, Bool.not_eq_true'] at h
-  obtain ⟨⟨⟨⟨⟨⟨⟨⟨⟨⟨⟨h1, h2⟩, h3⟩, h4⟩, h5⟩, h6⟩, h7⟩, h8⟩, h9⟩, h10⟩, h11⟩, h12⟩ := h
-  refine ⟨h1, h2, h3, h4, h5, h6, h7, ?_, ?_, h10, h11, ?_, ?_, ?_, ?_⟩
-  · intro h; rcases h8 with h' | h'
-    · rw [h] at h'; cases h'
-    · exact h'
-  · intro h; rcases h9 with h' | h'
-    · rw [h] at h'; cases h'
-    · exact h'
-  all_goals
-    intro h; rcases h12 with h' | h'
-    · rw [h] at h'; cases h'
-    · simp [h'.1, h'.2]
+  simp only [wfGuards, Bool.and_eq_true] at h
+  obtain ⟨⟨⟨⟨⟨⟨⟨⟨⟨⟨h1, h2⟩, h3⟩, h4⟩, h5⟩, h6⟩, h7⟩, h8⟩, h9⟩, h10⟩, h11⟩ := h
+  have h2' := imp_of_not_or h2
+  have h11' := imp_of_not_or h11
+  refine ⟨?_, ?_, ?_, h3, h4, h5, imp_of_not_or h6, imp_of_not_or h7, h8, h9, ?_, ?_, ?_, ?_⟩
+  · intro e he; exact List.all_eq_true.mp h1 e (List.contains_iff_mem.mp he)
+  · intro h; have := h2' h; simp only [Bool.and_eq_true] at this; exact this.1
+  · intro h; have := h2' h; simp only [Bool.and_eq_true] at this; exact this.2
+  · intro e he; exact List.all_eq_true.mp h10 e (List.contains_iff_mem.mp he)
+  · intro h hm; have := h11' h; simp only [Bool.and_eq_true] at this; exact imp_of_not_or this.1.1 hm
+  · intro h; have := h11' h; simp only [Bool.and_eq_true] at this; exact this.1.2
+  · intro h; have := h11' h; simp only [Bool.and_eq_true] at this; exact this.2
+
+theorem WF.fnf {G : Guards} (hw : WF G) : Exc.caughtBy G.l.caught .FileNotFoundError = true :=
+  hw.ioL _ (by decide)
+
+theorem WF.mfnf {G : Guards} (hw : WF G) : Exc.caughtBy G.w.caught .FileNotFoundError = true :=
+  hw.ioW _ (by decide)
 
 /-! ### file contents -/
 
 /-- the file is missing or holds bytes that may even be merged -/
 def FileGood (env : Env) (G : Guards) (f : Option Bytes) : Prop := ∀ b, f = some b → BytesGood env G b
 
-theorem Good.sound {env : Env} {v : Val} (h : Good env v) : Sound env v := fun ht _ => h ht
+theorem Good.sound {env : Env} {v : Val} (h : Good env v) : Sound env v := fun _ => h
 
 theorem BytesGood.harmless {env : Env} {G : Guards} {b : Bytes} (h : BytesGood env G b) : Harmless env G b := by
   unfold BytesGood at h; unfold Harmless
@@ -121,7 +128,7 @@ structure PInv (env : Env) (G : Guards) (p : Proc) : Prop extends Base env p whe
 /-- "has only seen the initial file so far": the processes that do NOT witness that the file is mergeable -/
 def PreW (env : Env) (f0 : Option Bytes) (p : Proc) : Prop :=
   match p.pc with
-  | .lExists | .lAcquire | .lOpen | .crashed | .lRemoveStale => True
+  | .lExists | .lAcquire | .lOpen | .crashed | .lRemoveStale | .hExists | .hRemove | .lRelease (.exc _) => True
   | .lUnpickle => f0 = some p.buf
   | .lRelease .normal => f0 = some p.buf ∧ ∃ v, p.loaded = some v ∧ env.unpickle p.buf = .ok v
   | _ => False
@@ -203,12 +210,19 @@ theorem lr_fin {env : Env} {G : Guards} (hw : WF G) (p : Proc) (e : Exc) (hb : B
   · have := fl_fin hw { p with loaded := none } ⟨hb.ans, hb.mem, hb.keys⟩ (by simp)
     exact ⟨this.inv, this.nolock, this.asked⟩
 
-theorem lc_fin {env : Env} {G : Guards} (hw : WF G) (p : Proc) (hb : Base env p)
+/-- for a merging writer the handler removes the file: the process stays a pending witness -/
+theorem lr_prew {env : Env} {G : Guards} {f0 : Option Bytes} (hw : WF G) (p : Proc) (e : Exc)
+    (he : Exc.caughtBy G.l.caught e = true) (hm : G.w.mergesExisting = true) :
+    PreW env f0 (loaderRaise env G p e) := by
+  simp only [loaderRaise, he, hw.hcl, hw.mhr hm, if_true]
+  by_cases hg : G.l.handlerExistsGuard = true <;> simp [PreW, hg]
+
+theorem lc_fin {env : Env} {G : Guards} {f0 : Option Bytes} (hw : WF G) (p : Proc) (hb : Base env p)
     (hs : ∀ v, p.loaded = some v → Sound env v) :
     Fin env G p (loaderChecks env G p) ∧
     (G.w.mergesExisting = true → ∀ v, p.loaded = some v → env.unpickle p.buf = .ok v →
-      BytesGood env G p.buf ∨ (loaderChecks env G p).pc = .lRemoveStale) := by
-  simp only [loaderChecks, hw.tc, hw.tcTry, hw.fpc, hw.stale, if_true, Bool.true_and, Bool.not_true, Bool.false_or]
+      BytesGood env G p.buf ∨ PreW env f0 (loaderChecks env G p)) := by
+  simp only [loaderChecks, hw.fpc, hw.stale, if_true, Bool.not_true, Bool.false_or]
   split
   · rename_i hl
     exact ⟨fl_fin hw p hb (by simp [hl]), by simp [hl]⟩
@@ -216,28 +230,27 @@ theorem lc_fin {env : Env} {G : Guards} (hw : WF G) (p : Proc) (hb : Base env p)
     have hsv := hs v hl
     split
     · rename_i hty
-      refine ⟨lr_fin hw p _ hb hw.tcExc, ?_⟩
-      intro _ v' hv' hu
-      rw [hl] at hv'; cases hv'
-      left; unfold BytesGood; rw [hu]
-      intro ht; simp [ht] at hty
-    · rename_i hty
-      have hty : v.ty = env.expectedTy := by simpa using hty
-      split
+      have htc : G.l.typeChecked = true := by
+        simp only [Bool.and_eq_true] at hty; exact hty.1
+      simp only [hw.tcTry htc, if_true]
+      refine ⟨lr_fin hw p _ hb (hw.tcExc htc), ?_⟩
+      intro hm _ _ _
+      exact Or.inr (lr_prew hw p _ (hw.tcExc htc) hm)
+    · split
       · rename_i hfp
         have hfp : env.fpOf (keys v.ents) = v.fp := by simpa using hfp
-        have hg : ∀ e ∈ v.ents, EntOK env e := hsv hty hfp
+        have hg : ∀ e ∈ v.ents, EntOK env e := hsv hfp
         refine ⟨?_, ?_⟩
         · have := fl_fin hw { p with selfFp := some v.fp } ⟨hb.ans, hb.mem, hb.keys⟩ (by
             intro v' hv'; simp only [hl] at hv'; cases hv'; exact hg)
           exact ⟨this.inv, this.nolock, this.asked⟩
         · intro _ v' hv' hu
           rw [hl] at hv'; cases hv'
-          left; unfold BytesGood; rw [hu]; exact fun _ => hg
+          left; unfold BytesGood; rw [hu]; exact hg
       · split
         · rename_i hrs
           refine ⟨⟨⟨⟨hb.ans, hb.mem, hb.keys⟩, by simp [PcInv, hrs]⟩, by simp [inLock], rfl⟩, ?_⟩
-          intro _ _ _ _; right; rfl
+          intro _ _ _ _; right; simp [PreW]
         · rename_i hrs
           refine ⟨?_, ?_⟩
           · have := fl_fin hw { p with loaded := none } ⟨hb.ans, hb.mem, hb.keys⟩ (by simp)
